@@ -90,22 +90,39 @@ def float_sweep(rep, n, seed):
         unit = Fraction(10) ** (ee - 1)
         q = fe / unit                      # in [10, 100)
         e2 = math.floor(q + Fraction(1, 2))
-        tie = abs((q - math.floor(q)) - Fraction(1, 2)) * unit <= 4 * Fraction(math.ulp(err))
+        etie = abs((q - math.floor(q)) - Fraction(1, 2)) * unit <= 4 * Fraction(math.ulp(err))
+        # at a (near-)tie of the error either neighbour is a correct two-digit rounding; each fixes the decimal place
+        # the value is then rounded to (again either neighbour at a near-tie)
+        accept = set()
+        tie = etie
+        for e2c in ([math.floor(q), math.floor(q) + 1] if etie else [e2]):
+            p = ee - 1
+            if e2c == 100:
+                e2c, p = 10, ee
+            place = Fraction(10) ** p
+            qx = fx / place
+            vtie = abs((qx - math.floor(qx)) - Fraction(1, 2)) * place <= 4 * Fraction(math.ulp(x) if x else 0)
+            tie = tie or vtie
+            for vd in ([math.floor(qx), math.floor(qx) + 1] if vtie else [math.floor(qx + Fraction(1, 2))]):
+                accept.add((e2c * place, vd * place))
         p = ee - 1
         if e2 == 100:
             e2, p = 10, ee
         place = Fraction(10) ** p
-        qx = fx / place
-        vd = math.floor(qx + Fraction(1, 2))
-        tie = tie or abs((qx - math.floor(qx)) - Fraction(1, 2)) * place <= 4 * Fraction(math.ulp(x) if x else 0)
-        return e2 * place, vd * place, tie
+        vd = math.floor(fx / place + Fraction(1, 2))
+        return e2 * place, vd * place, tie, accept
 
     bad = 0
     done = 0
     for i in range(n):
-        kind = i % 4
+        kind = i % 5
         ee = rnd.choice([-300, -20, -5, -3, -2, -1, 0, 1, 2, 3, 5, 20, 250])
-        if kind == 0:
+        if kind == 4:
+            # decimal literals exactly on a rounding boundary of the error (9.95, 1.05, 1.5 x 10^k): which side the double
+            # falls on depends on k, and so may an internal rescaling - the output must still be one of the two roundings
+            ee = rnd.randint(-30, 30)
+            mant = rnd.choice([9.95, 9.95, 9.95, 1.05, 1.5, 9.85, 2.5])
+        elif kind == 0:
             mant = rnd.uniform(9.94, 10.0)       # carry boundary
         elif kind == 1:
             mant = rnd.uniform(1.0, 10.0)
@@ -114,6 +131,8 @@ def float_sweep(rep, n, seed):
             mant = min(max(mant, 1.0), 9.9999999)
         err = float("%.17ge%d" % (mant, ee))
         rel = rnd.choice([-12, -6, -3, -2, -1, 0, 1, 2, 3, 6, 12])
+        if kind == 4:
+            rel = rnd.choice([1, 2, 3, 4, 6])
         if kind == 3:
             x = 0.0
         else:
@@ -121,9 +140,7 @@ def float_sweep(rep, n, seed):
             x = float("%.17ge%d" % (xm, ee + rel)) * rnd.choice([1, -1])
         if not (err > 0 and math.isfinite(x) and math.isfinite(err)):
             continue
-        want_err, want_val, tie = oracle(x, err)
-        if tie:
-            continue
+        want_err, want_val, tie, accept = oracle(x, err)
         done += 1
         try:
             s = f(x, err)
@@ -132,10 +149,12 @@ def float_sweep(rep, n, seed):
             s, rb = "raised %r" % (e,), None
         case = dict(kind="float", x=x.hex(), err=err.hex())
         rep.add_case(["float", x, err], sample=dict(case, out=s) if i < 2 else None)
-        if rb is None or rb[1] != want_err or rb[0] != want_val:
+        if rb is None or (rb[1], rb[0]) not in accept:
             bad += 1
-            rep.add_violation(case, "x=%r err=%r -> %r, expected value %s error %s" % (
-                x, err, s, float(want_val), float(want_err)), key=dict(kind="float"))
+            rep.add_violation(case, "x=%r err=%r -> %r, expected value %s error %s%s" % (
+                x, err, s, float(want_val), float(want_err),
+                " (a near-tie: any of %s would be right)" % sorted((float(v), float(e)) for e, v in accept) if tie else ""),
+                key=dict(kind="float", tie=bool(tie)))
     return done, bad
 
 
